@@ -140,10 +140,17 @@ class RankSelection(SelectionFunction[T]):
         """
         random_value = randomness.next_float()
         bias = self.bias
-        return int(
-            len(population)
-            * ((bias - sqrt(bias**2 - (4.0 * (bias - 1.0) * random_value))) / 2.0 / (bias - 1.0))
-        )
+        if bias == 1.0:
+            # The formula below is undefined for a bias of 1.0; its limit is the
+            # uniform distribution, i.e., random selection.
+            position = random_value
+        else:
+            position = (
+                (bias - sqrt(bias**2 - (4.0 * (bias - 1.0) * random_value))) / 2.0 / (bias - 1.0)
+            )
+        # Floating-point rounding can yield a position of 1.0 for random values close
+        # to 1.0 (for biases close to 1.0), which must not lead outside the population.
+        return min(int(len(population) * position), max(len(population) - 1, 0))
 
 
 class TournamentSelection(SelectionFunction[T]):
